@@ -9,9 +9,17 @@ import (
 	"github.com/osteele/liquid/values"
 )
 
-func sortFilter(array []any, key any) []any {
+// liquidValues copies the array, with every Drop element replaced by its ToLiquid value.
+func liquidValues(array []any) []any {
 	result := make([]any, len(array))
-	copy(result, array)
+	for i, item := range array {
+		result[i] = values.ToLiquid(item)
+	}
+	return result
+}
+
+func sortFilter(array []any, key any) []any {
+	result := liquidValues(array)
 	if key == nil {
 		values.Sort(result)
 	} else {
@@ -21,8 +29,8 @@ func sortFilter(array []any, key any) []any {
 }
 
 func sortNaturalFilter(array []any, key any) any {
-	result := make([]any, len(array))
-	copy(result, array)
+	result := liquidValues(array)
+	array = result
 	switch {
 	case reflect.ValueOf(array).Len() == 0:
 	case key != nil:
